@@ -18,7 +18,7 @@ def row(m):
 total = len(metas); caught = sum(1 for m in metas if m.get("caught_by"))
 out = []
 out.append("## Appendix E — seeded defects (sensitivity)\n")
-out.append(f"""Seven rounds of 18 seeded defects each (rounds 1–4, 6 and 7: two per claimed property; round 5: two per group of source files, the author choosing which property to break),
+out.append(f"""Seven rounds of 18 seeded defects each and an eighth of six (rounds 1–4, 6 and 7: two per claimed property; round 5: two per group of source files, the author choosing which property to break),
 every one written by a fresh sub-agent that was given only the text of one
 property and its own scratch git worktree of `/repo` under `/tmp` — nothing
 from `/verif`. Rounds 2 to 4 additionally received one-line summaries of the
@@ -36,7 +36,9 @@ in one call); round 7 for defects that manifest under a caller behaviour or an
 environment condition rather than an input value (object or buffer re-use,
 threads, fork, drop order, other system calls failing or succeeding partially,
 process-wide settings, container-specific trait impls, state surviving a failed
-call).
+call). Round 8 is a short round of six (one each for C02, C03, C08, C14, C17,
+C19) written against the final machinery with the round-1 brief plus a list of
+less common angles to prefer.
 For each defect I re-ran in the scratch worktree: the demonstration on clean
 HEAD (passes), the existing suite with the patch (`cargo test --offline --lib
 --tests`, plus `cargo +nightly test --features nightly --lib` for
@@ -47,7 +49,7 @@ registered quick check(s), and reverted — `tools/run_seeded.py` (results in ea
 quick tier; the ones that are not are discussed under "Round 7" below. The last column says what the machinery needed in order to catch
 the defect when it did not as it stood at the time the defect was written.
 """)
-for r in (1, 2, 3, 4, 5, 6, 7):
+for r in (1, 2, 3, 4, 5, 6, 7, 8):
     ms = [m for m in metas if rnd(m) == r]
     if not ms: continue
     out.append(f"\n### Round {r}\n")
